@@ -39,8 +39,46 @@ def is_num(t):
     return t[0] == "num"
 
 
+_KEYS = {}
+
+
 def key(t):
-    return repr(t)
+    """deterministic ordering key of a term: short, memoised on object identity
+    (a digest of the children's keys, so deep terms are not re-rendered)."""
+    if not isinstance(t, tuple):
+        return repr(t)
+    k = _KEYS.get(id(t))
+    if k is not None and k[0] is t:
+        return k[1]
+    if not t:
+        r = "()"
+    else:
+        h = t[0]
+        if h == "num":
+            r = "n%s/%s" % (t[1].numerator, t[1].denominator)
+        elif h == "sym":
+            r = "s" + t[1]
+        elif h in ("lv", "lt") and len(t) == 3:
+            r = h                       # loop identifiers / variable names do not influence ordering
+        elif h == "loop" and len(t) == 5:
+            import hashlib
+            parts = "|".join([key(t[2])] + [key(v) for _, v in t[3]] + [key(v) for _, v in t[4]])
+            r = "loop:" + hashlib.md5(parts.encode()).hexdigest()[:20]
+        elif h == "loopout" and len(t) == 3:
+            r = "lo:" + key(t[2])
+        elif h == "listcomp" and len(t) == 4:
+            import hashlib
+            r = "lc:" + hashlib.md5((key(t[2]) + "|" + key(t[3])).encode()).hexdigest()[:20]
+        elif isinstance(h, str) and len(t) <= 2 and all(not isinstance(x, tuple) for x in t[1:]):
+            r = repr(t)
+        else:
+            import hashlib
+            parts = "|".join(key(x) for x in t)
+            r = (h if isinstance(h, str) else "T") + ":" + hashlib.md5(parts.encode()).hexdigest()[:20]
+    if len(_KEYS) > 2000000:
+        _KEYS.clear()
+    _KEYS[id(t)] = (t, r)
+    return r
 
 
 def add(*ts):
